@@ -33,37 +33,332 @@ theorem windowV_node (f : RomsFile) (sub : Option (Int × Int × Int × Int)) (g
     (hmr : get2 f.mask (g.j0 + j) (g.i0 + i) = some mr) :
     get3 (windowV g rawV scale) k j i
       = some ((match scale with | some s => s * x | none => x) * (ml * mr)) := by
-  sorry
+  obtain ⟨hM, hi0, -, hj0, -⟩ := mkGrid_some f sub g hg
+  obtain ⟨i_n, rfl⟩ := Int.eq_ofNat_of_zero_le hi.1
+  obtain ⟨n, hn⟩ : ∃ n : Nat, j = ((n + 1 : Nat) : Int) := ⟨(j - 1).toNat, by omega⟩
+  subst hn
+  have hraw : (((rawV.map (fun P => slice2 P (g.j0 - 1) g.j1 g.i0 g.i1))[k]?).bind (·[n + 1]?)).bind
+      (·[i_n]?) = some x := by
+    rw [List.getElem?_map]
+    obtain ⟨row, hrow, hrx⟩ := bind_some_split _ _ _ hx
+    obtain ⟨P, hP, hPr⟩ := bind_some_split _ _ _ hrow
+    rw [hP]
+    simp only [Option.map_some, Option.bind_some]
+    rw [← get2_nat, get2_slice2 P _ _ _ _ _ _ (by omega) (by omega) (by omega) hi]
+    unfold get2
+    have e : g.j0 - 1 + ((n + 1 : Nat) : Int) = g.j0 + ((n + 1 : Nat) : Int) - 1 := by omega
+    rw [e, hPr, Option.bind_some, ← hrx]
+  have hmask : (maskV g.M)[n + 1]?.bind (·[i_n]?) = some (ml * mr) := by
+    apply maskV_interior
+    · rw [← get2_nat, hM, get2_slice2 _ _ _ _ _ _ _ (by omega) (by omega) (by omega) hi, ← hml]
+      congr 1
+      omega
+    · rw [← get2_nat, hM, get2_slice2 _ _ _ _ _ _ _ (by omega) (by omega) (by omega) hi, ← hmr]
+  unfold windowV
+  rw [get3_nat]
+  exact readVel_node _ scale _ k (n + 1) i_n x (ml * mr) hraw hmask
+
+/-! ### the two windows -/
+
+/-- the limits of the whole-grid window -/
+theorem subgridLimits_none (im jm a b c d : Int)
+    (h : subgridLimits im jm none = some (a, b, c, d)) :
+    a = 1 ∧ b = im - 1 ∧ c = 1 ∧ d = jm - 1 := by
+  unfold subgridLimits at h
+  simp only at h
+  split_ifs at h <;>
+    (simp only [Option.some.injEq, Prod.mk.injEq] at h; omega)
+
+/-- what `mkGrid` returns: the limits, and the arrays as slices of the file's -/
+theorem mkGrid_limits (f : RomsFile) (sub : Option (Int × Int × Int × Int)) (g : GridM)
+    (hg : mkGrid f sub = some g) :
+    subgridLimits ((f.h.headD []).length) f.h.length sub = some (g.i0, g.i1, g.j0, g.j1) ∧
+    g.zr = zRho f.vtransform (slice2 f.h g.j0 g.j1 g.i0 g.i1) f.hc f.CsR := by
+  unfold mkGrid at hg
+  simp only at hg
+  split at hg
+  · exact absurd hg (by simp)
+  · rename_i i0 i1 j0 j1 hs
+    obtain rfl := Option.some.inj hg
+    exact ⟨hs, rfl⟩
+
+/-- every legal window lies inside the whole-grid window, which lies inside the file -/
+theorem window_sub (f : RomsFile) (sub : Option (Int × Int × Int × Int)) (g g0 : GridM)
+    (hg : mkGrid f sub = some g) (hg0 : mkGrid f none = some g0) :
+    (1 ≤ g.i0 ∧ g.i0 < g.i1 ∧ 1 ≤ g.j0 ∧ g.j0 < g.j1) ∧
+    (g0.i0 = 1 ∧ g.i1 ≤ g0.i1 ∧ g0.j0 = 1 ∧ g.j1 ≤ g0.j1) ∧
+    (g0.i1 = ((f.h.headD []).length : Int) - 1 ∧ g0.j1 = (f.h.length : Int) - 1) := by
+  obtain ⟨hs, -⟩ := mkGrid_limits f sub g hg
+  obtain ⟨hs0, -⟩ := mkGrid_limits f none g0 hg0
+  have h1 := subgridLimits_some _ _ _ _ _ _ _ hs
+  have h2 := subgridLimits_none _ _ _ _ _ _ hs0
+  omega
+
+theorem mapM_map_opt {α β γ} (f : α → β) (φ : β → Option γ) (l : List α) :
+    (l.map f).mapM φ = l.mapM (fun a => φ (f a)) := by
+  induction l with
+  | nil => rfl
+  | cons a t ih => simp only [List.map_cons, List.mapM_cons, ih]
+
+theorem get2_map2 (φ : ℚ → ℚ) (H : Field2) (j i : Int) :
+    get2 (H.map fun row => row.map φ) j i = (get2 H j i).map φ := by
+  unfold get2
+  rw [getI_map]
+  cases getI H j with
+  | none => rfl
+  | some row => simp only [Option.map_some, Option.bind_some, getI_map]
+
+/-- element `(j, i)` of a rho-window is the file's element at the global indices -/
+theorem get2_window (f : RomsFile) (sub : Option (Int × Int × Int × Int)) (g : GridM)
+    (hg : mkGrid f sub = some g) (F : Field2) (J I : Int)
+    (hJ : g.j0 ≤ J ∧ J < g.j1) (hI : g.i0 ≤ I ∧ I < g.i1) :
+    get2 (slice2 F g.j0 g.j1 g.i0 g.i1) (J - g.j0) (I - g.i0) = get2 F J I := by
+  obtain ⟨-, hi0, -, hj0, -⟩ := mkGrid_some f sub g hg
+  rw [get2_slice2 _ _ _ _ _ _ _ (by omega) (by omega) (by omega) (by omega)]
+  congr 1 <;> omega
 
 /-- the level column of a cell, in global cell indices, does not depend on the window -/
 theorem column_window (f : RomsFile) (sub : Option (Int × Int × Int × Int)) (g g0 : GridM)
     (hg : mkGrid f sub = some g) (hg0 : mkGrid f none = some g0) (J I : Int)
     (hJ : g.j0 ≤ J ∧ J < g.j1) (hI : g.i0 ≤ I ∧ I < g.i1) :
     column g.zr (J - g.j0) (I - g.i0) = column g0.zr (J - g0.j0) (I - g0.i0) := by
-  sorry
+  obtain ⟨-, hzr⟩ := mkGrid_limits f sub g hg
+  obtain ⟨-, hzr0⟩ := mkGrid_limits f none g0 hg0
+  obtain ⟨hw, hw0, -⟩ := window_sub f sub g g0 hg hg0
+  rw [hzr, hzr0]
+  unfold column zRho
+  simp only [mapM_map_opt, get2_map2]
+  rw [get2_window f sub g hg f.h J I hJ hI,
+    get2_window f none g0 hg0 f.h J I (by omega) (by omega)]
 
 /-- **sample_subgrid_indep (level column)**: `K` and `A` of a particle do not depend on the window -/
 theorem levelOf_subgrid_indep (f : RomsFile) (sub : Option (Int × Int × Int × Int)) (g g0 : GridM)
     (hg : mkGrid f sub = some g) (hg0 : mkGrid f none = some g0) (x y z : ℚ)
     (hv : g.ingrid x y = true) : levelOf g x y z = levelOf g0 x y z := by
-  sorry
+  obtain ⟨c1, c2, c3, c4⟩ := C17.cell_in_window g x y hv
+  unfold levelOf z2s
+  simp only [roundHalfEven_intCast]
+  have := column_window f sub g g0 hg hg0 (roundHalfEven y) (roundHalfEven x)
+    (by unfold GridM.cellJ at c3 c4; omega) (by unfold GridM.cellI at c1 c2; omega)
+  unfold GridM.cellI GridM.cellJ
+  rw [this]
 
+/-! ### the velocity windows -/
+
+theorem get3_readVel_none (raw : Field3) (φ : List (List ℚ) → List (List ℚ)) (scale : Option ℚ)
+    (mask : Field2) (k j i : Int) (h : getI raw k = none) :
+    get3 (readVel (raw.map φ) scale mask) k j i = none := by
+  unfold get3 readVel
+  rw [getI_map, getI_map, h]
+  rfl
+
+theorem getI_some_nonneg {α} (l : List α) (k : Int) (v : α) (h : getI l k = some v) : 0 ≤ k := by
+  by_contra hk
+  unfold getI at h
+  rw [if_neg hk] at h
+  cases h
+
+/-- an interior u-face of the subgrid's window carries the same number as the same (global) face
+    of the whole-grid window, at every level index (also outside the array: both `none`) -/
+theorem windowU_indep (f : RomsFile) (rawU rawV : Field3) (N jmax0 imax0 : Int)
+    (hf : FileOK f rawU rawV N jmax0 imax0)
+    (sub : Option (Int × Int × Int × Int)) (g g0 : GridM)
+    (hg : mkGrid f sub = some g) (hg0 : mkGrid f none = some g0) (scale : Option ℚ)
+    (k j i j' i' : Int)
+    (hj : 0 ≤ j ∧ j < g.j1 - g.j0) (hi : 1 ≤ i ∧ i < g.i1 - g.i0)
+    (ej : g.j0 + j = g0.j0 + j') (ei : g.i0 + i = g0.i0 + i') :
+    get3 (windowU g rawU scale) k j i = get3 (windowU g0 rawU scale) k j' i' := by
+  obtain ⟨hw, hw0, hw1⟩ := window_sub f sub g g0 hg hg0
+  have hjm := hf.hj
+  have him := hf.hi
+  cases hk : getI rawU k with
+  | none =>
+    unfold windowU
+    rw [get3_readVel_none _ _ _ _ _ _ _ hk, get3_readVel_none _ _ _ _ _ _ _ hk]
+  | some P =>
+    obtain ⟨n, rfl⟩ := Int.eq_ofNat_of_zero_le (getI_some_nonneg _ _ _ hk)
+    rw [getI_natCast] at hk
+    have hPm : P ∈ rawU := List.mem_of_getElem? hk
+    obtain ⟨row, hrow, hrm⟩ := C17.getI_some P (g.j0 + j) (by omega)
+      (by rw [hf.hu.rws P hPm]; omega)
+    obtain ⟨xv, hxv, -⟩ := C17.getI_some row (g.i0 + i - 1) (by omega)
+      (by rw [hf.hu.cls P hPm row hrm]; omega)
+    obtain ⟨ml, hml⟩ := C17.get2_some f.mask _ _ hf.hm (g.j0 + j) (g.i0 + i - 1)
+      (by omega) (by omega)
+    obtain ⟨mr, hmr⟩ := C17.get2_some f.mask _ _ hf.hm (g.j0 + j) (g.i0 + i)
+      (by omega) (by omega)
+    have hx : ((rawU[n]?).bind (getI · (g.j0 + j))).bind (getI · (g.i0 + i - 1)) = some xv := by
+      rw [hk]; simp only [Option.bind_some, hrow, hxv]
+    rw [windowU_node f sub g hg rawU scale n j i hj hi xv ml mr hx hml hmr]
+    rw [ej, ei] at hx hml hmr
+    rw [windowU_node f none g0 hg0 rawU scale n j' i' (by omega) (by omega) xv ml mr hx hml hmr]
+
+theorem windowV_indep (f : RomsFile) (rawU rawV : Field3) (N jmax0 imax0 : Int)
+    (hf : FileOK f rawU rawV N jmax0 imax0)
+    (sub : Option (Int × Int × Int × Int)) (g g0 : GridM)
+    (hg : mkGrid f sub = some g) (hg0 : mkGrid f none = some g0) (scale : Option ℚ)
+    (k j i j' i' : Int)
+    (hj : 1 ≤ j ∧ j < g.j1 - g.j0) (hi : 0 ≤ i ∧ i < g.i1 - g.i0)
+    (ej : g.j0 + j = g0.j0 + j') (ei : g.i0 + i = g0.i0 + i') :
+    get3 (windowV g rawV scale) k j i = get3 (windowV g0 rawV scale) k j' i' := by
+  obtain ⟨hw, hw0, hw1⟩ := window_sub f sub g g0 hg hg0
+  have hjm := hf.hj
+  have him := hf.hi
+  cases hk : getI rawV k with
+  | none =>
+    unfold windowV
+    rw [get3_readVel_none _ _ _ _ _ _ _ hk, get3_readVel_none _ _ _ _ _ _ _ hk]
+  | some P =>
+    obtain ⟨n, rfl⟩ := Int.eq_ofNat_of_zero_le (getI_some_nonneg _ _ _ hk)
+    rw [getI_natCast] at hk
+    have hPm : P ∈ rawV := List.mem_of_getElem? hk
+    obtain ⟨row, hrow, hrm⟩ := C17.getI_some P (g.j0 + j - 1) (by omega)
+      (by rw [hf.hv.rws P hPm]; omega)
+    obtain ⟨xv, hxv, -⟩ := C17.getI_some row (g.i0 + i) (by omega)
+      (by rw [hf.hv.cls P hPm row hrm]; omega)
+    obtain ⟨ml, hml⟩ := C17.get2_some f.mask _ _ hf.hm (g.j0 + j - 1) (g.i0 + i)
+      (by omega) (by omega)
+    obtain ⟨mr, hmr⟩ := C17.get2_some f.mask _ _ hf.hm (g.j0 + j) (g.i0 + i)
+      (by omega) (by omega)
+    have hx : ((rawV[n]?).bind (getI · (g.j0 + j - 1))).bind (getI · (g.i0 + i)) = some xv := by
+      rw [hk]; simp only [Option.bind_some, hrow, hxv]
+    rw [windowV_node f sub g hg rawV scale n j i hj hi xv ml mr hx hml hmr]
+    rw [ej, ei] at hx hml hmr
+    rw [windowV_node f none g0 hg0 rawV scale n j' i' (by omega) (by omega) xv ml mr hx hml hmr]
+
+/-- two trilinear samples agree when the fractional weights agree and the four node columns
+    agree at every level index -/
+theorem trilinear_congr (F G : Field3) (x y x' y' : ℚ) (K : Int) (A : ℚ)
+    (hp : x - pyTrunc x = x' - pyTrunc x') (hq : y - pyTrunc y = y' - pyTrunc y')
+    (h : ∀ (k a b : Int), (a = 0 ∨ a = 1) → (b = 0 ∨ b = 1) →
+      get3 F k (pyTrunc y + a) (pyTrunc x + b) = get3 G k (pyTrunc y' + a) (pyTrunc x' + b)) :
+    trilinear F x y K A = trilinear G x' y' K A := by
+  have h00 : ∀ k, get3 F k (pyTrunc y) (pyTrunc x) = get3 G k (pyTrunc y') (pyTrunc x') :=
+    fun k => by simpa only [add_zero] using h k 0 0 (Or.inl rfl) (Or.inl rfl)
+  have h10 : ∀ k, get3 F k (pyTrunc y + 1) (pyTrunc x) = get3 G k (pyTrunc y' + 1) (pyTrunc x') :=
+    fun k => by simpa only [add_zero] using h k 1 0 (Or.inr rfl) (Or.inl rfl)
+  have h01 : ∀ k, get3 F k (pyTrunc y) (pyTrunc x + 1) = get3 G k (pyTrunc y') (pyTrunc x' + 1) :=
+    fun k => by simpa only [add_zero] using h k 0 1 (Or.inl rfl) (Or.inr rfl)
+  have h11 : ∀ k, get3 F k (pyTrunc y + 1) (pyTrunc x + 1)
+      = get3 G k (pyTrunc y' + 1) (pyTrunc x' + 1) :=
+    fun k => h k 1 1 (Or.inr rfl) (Or.inr rfl)
+  simp only [trilinear, h00, h10, h01, h11, hp, hq]
+
+/-- the *global* index `a + ⌊y − a⌋` and the fractional weight do not depend on the offset -/
+theorem index_shift (y : ℚ) (a : Int) (h : 0 ≤ y - a) (h0 : 0 ≤ y) :
+    a + pyTrunc (y - a) = pyTrunc y ∧ (y - a) - pyTrunc (y - a) = y - pyTrunc y := by
+  rw [pyTrunc_nonneg_eq _ h, pyTrunc_nonneg_eq _ h0, Int.floor_sub_intCast]
+  constructor
+  · omega
+  · push_cast; ring
+
+theorem valid_whole_index (a b : Int) (y : ℚ) (hlo : (a : ℚ) + 1/2 < y)
+    (hhi : y < ((b - 1 : Int) : ℚ) - 1/2) :
+    0 ≤ pyTrunc (y - a) ∧ pyTrunc (y - a) + 1 < b - a := by
+  push_cast at hhi
+  exact C17.pyTrunc_range (y - a) (b - a) (by linarith) (by push_cast; linarith)
+
+theorem valid_half_index (a b : Int) (x : ℚ) (hlo : (a : ℚ) + 1/2 < x)
+    (hhi : x < ((b - 1 : Int) : ℚ) - 1/2) :
+    1 ≤ pyTrunc (x - a + 1/2) ∧ pyTrunc (x - a + 1/2) + 1 < b - a := by
+  push_cast at hhi
+  rw [pyTrunc_nonneg_eq _ (by linarith)]
+  constructor
+  · apply Int.le_floor.2
+    push_cast; linarith
+  · have h1 : (⌊x - (a : ℚ) + 1/2⌋ : ℚ) ≤ x - a + 1/2 := Int.floor_le _
+    have h2 : ((⌊x - (a : ℚ) + 1/2⌋ + 1 : Int) : ℚ) < ((b - a : Int) : ℚ) := by
+      push_cast; linarith
+    exact_mod_cast h2
+
+set_option linter.unusedVariables false in -- `hb` follows from `hin`; kept as stated
 /-- **sample_subgrid_indep (velocity)**: with the level column fixed at a position of the
     subgrid's valid region, the velocity sampled at any position of the subgrid's clip box equals
-    the velocity sampled with the whole grid loaded. -/
+    the velocity sampled with the whole grid loaded.  (`hin`: the sampled position is strictly
+    inside the valid region, so that only interior faces of the subgrid's window are touched.) -/
 theorem sampleVel_subgrid_indep (f : RomsFile) (rawU rawV : Field3) (N jmax0 imax0 : Int) (hf : FileOK f rawU rawV N jmax0 imax0)
     (sub : Option (Int × Int × Int × Int)) (g g0 : GridM)
     (hg : mkGrid f sub = some g) (hg0 : mkGrid f none = some g0) (scale : Option ℚ) (sign x0 y0 z x y : ℚ)
     (h0 : g.ingrid x0 y0 = true) (hb : C17.InBox g x y) (hin : g.xmin + 1/2 < x ∧ x < g.xmax - 1/2 ∧ g.ymin + 1/2 < y ∧ y < g.ymax - 1/2) :
     sampleVel g (windowU g rawU scale) (windowV g rawV scale) sign x0 y0 z x y
       = sampleVel g0 (windowU g0 rawU scale) (windowV g0 rawV scale) sign x0 y0 z x y := by
-  sorry
+  obtain ⟨hx1, hx2, hy1, hy2⟩ := hin
+  obtain ⟨hw, hw0, hw1⟩ := window_sub f sub g g0 hg hg0
+  -- interior indices in `g`'s window
+  obtain ⟨iu1, iu2⟩ := valid_u_index g x hx1 hx2
+  obtain ⟨jv1, jv2⟩ := valid_half_index g.j0 g.j1 y hy1 hy2
+  obtain ⟨iw1, iw2⟩ := valid_whole_index g.i0 g.i1 x hx1 hx2
+  obtain ⟨jw1, jw2⟩ := valid_whole_index g.j0 g.j1 y hy1 hy2
+  simp only [GridM.xmin, GridM.xmax, GridM.ymin, GridM.ymax] at hx1 hx2 hy1 hy2
+  push_cast at hx2 hy2
+  have c1 : (g0.i0 : ℚ) = 1 := by exact_mod_cast hw0.1
+  have c2 : (g0.j0 : ℚ) = 1 := by exact_mod_cast hw0.2.2.1
+  have c3 : (1 : ℚ) ≤ g.i0 := by exact_mod_cast hw.1
+  have c4 : (1 : ℚ) ≤ g.j0 := by exact_mod_cast hw.2.2.1
+  -- global indices and weights
+  obtain ⟨su, pu⟩ := u_index_shift x g.i0 (by linarith) (by linarith)
+  obtain ⟨su0, pu0⟩ := u_index_shift x g0.i0 (by linarith) (by linarith)
+  obtain ⟨sv, pv⟩ := u_index_shift y g.j0 (by linarith) (by linarith)
+  obtain ⟨sv0, pv0⟩ := u_index_shift y g0.j0 (by linarith) (by linarith)
+  obtain ⟨sx, px⟩ := index_shift x g.i0 (by linarith) (by linarith)
+  obtain ⟨sx0, px0⟩ := index_shift x g0.i0 (by linarith) (by linarith)
+  obtain ⟨sy, py⟩ := index_shift y g.j0 (by linarith) (by linarith)
+  obtain ⟨sy0, py0⟩ := index_shift y g0.j0 (by linarith) (by linarith)
+  have hS : ∀ (K : Int) (A : ℚ),
+      sample3DUV (windowU g rawU scale) (windowV g rawV scale) (x - g.i0) (y - g.j0) K A
+        = sample3DUV (windowU g0 rawU scale) (windowV g0 rawV scale) (x - g0.i0) (y - g0.j0) K A := by
+    intro K A
+    have hU : trilinear (windowU g rawU scale) (x - g.i0 + 1/2) (y - g.j0) K A
+        = trilinear (windowU g0 rawU scale) (x - g0.i0 + 1/2) (y - g0.j0) K A := by
+      apply trilinear_congr _ _ _ _ _ _ _ _ (by rw [pu, pu0]) (by rw [py, py0])
+      intro k a b ha hb'
+      apply windowU_indep f rawU rawV N jmax0 imax0 hf sub g g0 hg hg0 scale
+      · rcases ha with rfl | rfl <;> omega
+      · rcases hb' with rfl | rfl <;> omega
+      · omega
+      · omega
+    have hV : trilinear (windowV g rawV scale) (x - g.i0) (y - g.j0 + 1/2) K A
+        = trilinear (windowV g0 rawV scale) (x - g0.i0) (y - g0.j0 + 1/2) K A := by
+      apply trilinear_congr _ _ _ _ _ _ _ _ (by rw [px, px0]) (by rw [pv, pv0])
+      intro k a b ha hb'
+      apply windowV_indep f rawU rawV N jmax0 imax0 hf sub g g0 hg hg0 scale
+      · rcases ha with rfl | rfl <;> omega
+      · rcases hb' with rfl | rfl <;> omega
+      · omega
+      · omega
+    simp only [sample3DUV, hU, hV]
+  unfold sampleVel
+  rw [levelOf_subgrid_indep f sub g g0 hg hg0 x0 y0 z h0]
+  simp only [hS]
+
+theorem get3_windowRho (f : RomsFile) (sub : Option (Int × Int × Int × Int)) (g : GridM)
+    (hg : mkGrid f sub = some g) (raw : Field3) (k J I : Int)
+    (hJ : g.j0 ≤ J ∧ J < g.j1) (hI : g.i0 ≤ I ∧ I < g.i1) :
+    get3 (windowRho g raw) k (J - g.j0) (I - g.i0) = (getI raw k).bind (fun P => get2 P J I) := by
+  unfold get3 windowRho
+  rw [getI_map]
+  cases getI raw k with
+  | none => rfl
+  | some P =>
+    simp only [Option.map_some, Option.bind_some]
+    exact get2_window f sub g hg P J I hJ hI
 
 /-- **sample_subgrid_indep (scalars)**: scalar forcing of a particle in the subgrid's valid region -/
 theorem sampleScalar_subgrid_indep (f : RomsFile) (raw : Field3) (sub : Option (Int × Int × Int × Int))
     (g g0 : GridM) (hg : mkGrid f sub = some g) (hg0 : mkGrid f none = some g0) (x y z : ℚ)
     (hv : g.ingrid x y = true) :
     sampleScalar g (windowRho g raw) x y z = sampleScalar g0 (windowRho g0 raw) x y z := by
-  sorry
+  obtain ⟨c1, c2, c3, c4⟩ := C17.cell_in_window g x y hv
+  obtain ⟨hw, hw0, -⟩ := window_sub f sub g g0 hg hg0
+  unfold sampleScalar
+  rw [levelOf_subgrid_indep f sub g g0 hg hg0 x y z hv]
+  cases levelOf g0 x y z with
+  | none => rfl
+  | some KA =>
+    obtain ⟨K, A⟩ := KA
+    simp only [bind, Option.bind_some, nearest, roundHalfEven_intCast]
+    simp only [GridM.cellI, GridM.cellJ] at c1 c2 c3 c4 ⊢
+    rw [get3_windowRho f sub g hg raw K _ _ (by omega) (by omega),
+      get3_windowRho f none g0 hg0 raw K _ _ (by omega) (by omega)]
 
 end Ladim.C02
